@@ -166,6 +166,10 @@ type LegOptions struct {
 	// the server starts serving, so that its accept loop finds them all
 	// waiting and accepts them back to back; NewClient hands them out first.
 	PreConnect int
+	// HTTPNoTap gives the HTTP client a plain http.Client: the wire tap reads
+	// every response body completely before the transport sees it, which hides
+	// how the transport itself reads a body that arrives in pieces.
+	HTTPNoTap bool
 }
 
 // ---- in-memory server transport --------------------------------------------
@@ -296,6 +300,9 @@ func StartRPCLeg(kind, proto string, processor frugal.FProcessor, nsrv *NatsServ
 		hs := httptest.NewServer(frugal.NewFrugalHandlerFunc(processor, leg.PF))
 		leg.stop = append(leg.stop, hs.Close)
 		client := &http.Client{Transport: &tapRoundTripper{tap: leg.Tap, rt: http.DefaultTransport}}
+		if opt.HTTPNoTap {
+			client = &http.Client{Transport: &http.Transport{}}
+		}
 		leg.NewClient = func() (frugal.FTransport, error) {
 			b := frugal.NewFHTTPTransportBuilder(client, hs.URL)
 			if opt.HTTPRequestLimit > 0 {
